@@ -150,9 +150,13 @@ CLAIMED['C05'] = dict(
          'newborn object and leaves no intern entry pointing at a released string. Fields that are redundant by a stated invariant '
          '(iterator `current` mirrored in Enumerator.current, error classes, Class.init, Vm.builtin / global_module / current_fun, the '
          'weak inline caches) are listed as assumptions, not checked. Not decided: the element loops of the managed containers\' own '
-         'traces (Array, UniqueVector, RawSharedVector), `dyn` natives and enumerators (listed as not encoded in the evidence), the '
-         'temporary-root discipline of allocating natives and compiler code (K3), and the composition into "same output under every '
-         'collection schedule".',
+         'traces (Array, UniqueVector, RawSharedVector), `dyn` natives and enumerators (listed as not encoded in the evidence), and the '
+         'composition into "same output under every collection schedule". C05.K3 temporary-root discipline: every native of laythe_lib '
+         '(the C16.K4 sweep, about 115 of 123 decided) and every `impl Enumerate::next` runs from MIR with every call observed; on each '
+         'solver-feasible path an ownership automaton requires that an object the native has just allocated is rooted, stored into '
+         'something reachable or handed to the next allocation before any point that can collect (allocations, callbacks, summarised '
+         'calls that receive the hooks), or is never used afterwards (a store is assumed whenever a newborn is handed to a call on a '
+         'reachable receiver: silence rather than alarm). Compiler-side rooting is not decided.',
     note='Trusted: rustc MIR printer, mirsym, abstract identities for every reference type, hash maps / deques / vectors as bounded '
          'logical containers, handle abstraction for the collector (identity, size, mark bit), Z3. The allow-list of redundant '
          'fields is an argument by inspection, recorded in obl/c05k1.py.',
@@ -178,8 +182,10 @@ CLAIMED['C11'] = dict(
          'C11.K2 the natives list.remove / list.insert / list[x] / list[x] = v for every f64 argument (NaN, infinities, fractions, '
          'negative values): they succeed exactly for integral in-range x (negative x from the end where documented), perform exactly '
          'the sequence operation, and otherwise raise leaving the receiver unchanged. Found and fixed F3 (capacity-0 growth wrote out '
-         'of bounds) and F15 (fractional / NaN indices truncated). Map, Tuple, String natives and the iterator adaptors are not yet '
-         'machine checked: this claim covers the List part of the property only.',
+         'of bounds) and F15 (fractional / NaN indices truncated); C11.K3 take / map / filter as stream functions; C11.K4 string[x] by '
+         'characters; C11.K5 the map iterator across ANY history of inserts / removals between two next() calls advances a hash-table '
+         'iterator only on the table generation it was created from (found and fixed F31: use after free of the reallocated buckets, '
+         'replayed under valgrind). Map / Tuple / String natives\' results and the other adaptors are not machine checked.',
     note='Trusted: rustc MIR printer and type-size printer, mirsym, block memory model (obl/memabs.py), f64::fract characterised by its '
          'sign / zero / magnitude facts instead of bit-blasted, error construction (call_error) and format! abstracted, Z3 FP theory.',
     ref='§4 C11')
